@@ -58,7 +58,7 @@ impl<Error: Send + 'static> DecodeScheduler<Error> {
 			.expect("The frame producer shouldn't be full because we just created it");
 		let sample_rate = decoder.sample_rate();
 		let num_frames = if let Some((start, end)) = slice {
-			end - start
+			end.saturating_sub(start)
 		} else {
 			decoder.num_frames()
 		};
@@ -170,7 +170,7 @@ impl<Error: Send + 'static> DecodeScheduler<Error> {
 	fn frame_at_index(&mut self, index: usize) -> Result<Frame, Error> {
 		let start = self.slice.map(|(start, _)| start).unwrap_or(0);
 		let end = self.slice.map(|(_, end)| end).unwrap_or(self.num_frames);
-		if index >= end - start {
+		if index >= end.saturating_sub(start) {
 			return Ok(Frame::ZERO);
 		}
 		let index = start + index;
